@@ -11,6 +11,8 @@ import (
 	"sync"
 	"sync/atomic"
 
+	"github.com/Oneledger/protocol/action"
+
 	"olverif/internal/gen"
 	"olverif/internal/hist"
 	"olverif/internal/proto"
@@ -61,7 +63,8 @@ type Cfg struct {
 	Evid    bool // occasionally include duplicate-vote evidence
 	// Hooks
 	Setup      func(r *hist.Runner) error
-	PerReplica func(r *hist.Runner, h int64, i int, base proto.Recipe, specs []hist.TxSpec) *proto.Recipe
+	PerReplica func(r *hist.Runner, h int64, i int, base proto.Recipe, sofar *hist.Block) *proto.Recipe
+	FeeFn      func(kind string) *action.Fee // lets a check vary fees / gas limits per generated tx
 	OnBlock    func(r *hist.Runner, blk *hist.Block) (stop bool)
 	ExtraPlan  func(c *gen.Ctx) []hist.TxSpec
 	FilterPlan func(c *gen.Ctx, specs []hist.TxSpec) []hist.TxSpec
@@ -107,7 +110,7 @@ func Run(cfg Cfg) *Result {
 	scripts := gen.ByNames(cfg.Scripts)
 	sched := newSchedule(w, rng, cfg)
 	for i := 0; i < cfg.Blocks; i++ {
-		c := &gen.Ctx{W: w, R: rng, H: r.H + 1, S: r.State, Memo: memo, TimeMs: r.TimeMs}
+		c := &gen.Ctx{W: w, R: rng, H: r.H + 1, S: r.State, Memo: memo, TimeMs: r.TimeMs, FeeFn: cfg.FeeFn}
 		var plan hist.Plan
 		for _, s := range scripts {
 			plan.Txs = append(plan.Txs, s.Plan(c)...)
@@ -121,8 +124,8 @@ func Run(cfg Cfg) *Result {
 		plan.DtMs, plan.Absent, plan.Evidence = sched.next(c)
 		if cfg.PerReplica != nil {
 			h := c.H
-			plan.PerReplica = func(i int, base proto.Recipe) *proto.Recipe {
-				return cfg.PerReplica(r, h, i, base, nil)
+			plan.PerReplica = func(i int, base proto.Recipe, sofar *hist.Block) *proto.Recipe {
+				return cfg.PerReplica(r, h, i, base, sofar)
 			}
 		}
 		blk, err := r.Step(plan)
